@@ -395,8 +395,8 @@ func brgOnce(bs, br, start int, closers []string) string {
 
 // ============================================================================
 // sp: StreamProcessor.Close against an in-flight ReadPacket / WritePacket
-//   sp op <r|w|n> chunks <k> cut <j> n <N> rep <K> ms <seed>
-//   obs: rclose <n> wclose <n> op <ok|err|eof|panic|none> after r <eof|…> w <closed|…> leak <g>
+//   sp op <r|w|z> chunks <k> cut <j> n <N> rep <K> ms <seed>
+//   obs: rclose <n> wclose <n> op <ok|fail|panic|none> after r <eof|…> w <closed|…> leak <g>
 // The transport double parks inside the call that moves chunk <cut> (data already
 // moved), the N closers run to completion, then the call returns.
 // ============================================================================
@@ -493,7 +493,7 @@ func spOnce(op string, chunks, cut, n int) string {
 				}
 			}()
 			_, _, err := sp.ReadPacket()
-			opRes <- errName(err)
+			opRes <- okFail(err)
 		}()
 	case "w":
 		go func() {
@@ -503,16 +503,24 @@ func spOnce(op string, chunks, cut, n int) string {
 				}
 			}()
 			_, err := sp.WritePacket(&packet.TransferPacket{PacketType: packet.TunnelData, Payload: []byte{1, 2, 3}}, false, 0)
-			opRes <- errName(err)
+			opRes <- okFail(err)
 		}()
 	default:
 		opRes <- "none"
 	}
+	var res string
 	if rw.cut >= 0 {
 		select {
 		case <-rw.atCut:
 		case <-time.After(5 * time.Second):
 			return "timeout cut"
+		}
+	} else {
+		// no cut: the operation completes before the closers start
+		select {
+		case res = <-opRes:
+		case <-time.After(5 * time.Second):
+			return "timeout op"
 		}
 	}
 	p := barrierRun(n, func(i int) { sp.Close() })
@@ -520,11 +528,12 @@ func spOnce(op string, chunks, cut, n int) string {
 		return "panic " + p[0]
 	}
 	close(rw.resume)
-	var res string
-	select {
-	case res = <-opRes:
-	case <-time.After(5 * time.Second):
-		return "timeout op"
+	if rw.cut >= 0 {
+		select {
+		case res = <-opRes:
+		case <-time.After(5 * time.Second):
+			return "timeout op"
+		}
 	}
 	after := withWatchdog(5*time.Second, func() string {
 		_, _, e1 := sp.ReadPacket()
@@ -536,6 +545,13 @@ func spOnce(op string, chunks, cut, n int) string {
 	})
 	g, _ := leaked(base, 3*time.Second)
 	return fmt.Sprintf("rclose %d wclose %d op %s %s leak %d", rw.rcloses.Load(), rw.wcloses.Load(), res, after, g)
+}
+
+func okFail(err error) string {
+	if err == nil {
+		return "ok"
+	}
+	return "fail"
 }
 
 func errName(err error) string {
